@@ -280,3 +280,76 @@ def pm1_key(rng, aid, bits, shared_bits, mode):
       break
   return _mk(aid, p * q, 'pm1', {'family': 'pm1', 'shared_log2': sm.bit_length() - 1, 'smooth_p': True, 'smooth_q': mode == 'both',
                                  'bits': (p * q).bit_length()}, p=p, q=q)
+
+
+def pm1_cover_factors(kind, block):
+  """The block of the default Pollard product a pm1cover cell stands for: [(prime, exponent)]."""
+  pr = _small_primes()
+  if kind == 'tail':
+    return [(r, 1) for r in pr[150 + 44 * block:150 + 44 * (block + 1)]]
+  out = []
+  for r in pr[13 * block:min(150, 13 * (block + 1))]:
+    e = 0
+    while r ** (e + 1) <= 2 ** 64:
+      e += 1
+    out.append((r, e))
+  return out
+
+
+def pm1_cover_key(rng, aid, bits, kind, block):
+  """p - 1 = 2 g (the block's prime powers) k with k a product of distinct other primes below 2^20; q - 1 = 2 g t, t not smooth."""
+  L = bits // 2
+  pr = _small_primes()
+  factors = pm1_cover_factors(kind, block)
+  used = {r for r, _ in factors}
+  tail = [r for r in pr[150:] if r not in used]
+  g = 1
+  while g.bit_length() < 66:
+    r = rng.choice(tail)
+    if r not in used:
+      used.add(r)
+      g *= r
+  base = g
+  for r, e in factors:
+    base *= r ** e
+  if base % 2:
+    base *= 2
+  p = None
+  for _ in range(20000):
+    k, mine = 1, set()
+    while (base * k).bit_length() < L - 21:
+      r = rng.choice(tail)
+      if r not in used and r not in mine:
+        mine.add(r)
+        k *= r
+    rem = L - (base * k).bit_length()
+    # last factor: a prime of about rem bits (distinct, below 2^20) or nothing
+    cand = [r for r in (rng.choice(pr[1:]) for _ in range(40)) if r not in used and r not in mine and (base * k * r).bit_length() == L]
+    for r in cand:
+      v = base * k * r + 1
+      if gmpy2.is_prime(v):
+        p = int(v)
+        break
+    if p:
+      break
+  if p is None:
+    return None
+  q = None
+  for _ in range(100000):
+    t = rng.getrandbits(L - g.bit_length() - 1) | (1 << (L - g.bit_length() - 2))
+    v = 2 * g * t + 1
+    if v.bit_length() == L and gmpy2.is_prime(v):
+      q = int(v)
+      break
+  if q is None:
+    return None
+  gg = int(gmpy2.gcd(p - 1, q - 1))
+  sm = 1
+  for r in pr:
+    while gg % r == 0:
+      gg //= r
+      sm *= r
+    if gg == 1:
+      break
+  return _mk(aid, p * q, 'pm1', {'family': 'pm1', 'shared_log2': sm.bit_length() - 1, 'smooth_p': True, 'smooth_q': False, 'bits': (p * q).bit_length()},
+             p=p, q=q, block=[kind, block])
